@@ -57,6 +57,13 @@ def FOR(x, path, body, els):
     return ("for", x, ("path", path), body, els)
 
 
+def la_of(n):
+    """Loop arguments of a for / tablerow node: {"limit": atom|None, "offset": atom|"continue"|None, "reversed": bool,
+    "cols": atom|None, "order": [names in source order]} (the last element of the node, optional)."""
+    la = n[5] if n[0] == "for" and len(n) > 5 else (n[4] if n[0] == "tablerow" and len(n) > 4 else None)
+    return la or {"limit": None, "offset": None, "reversed": False, "cols": None, "order": []}
+
+
 def tup(x):
     """JSON round trip turns tuples into lists; normalise to tuples/lists as the generator builds them."""
     if isinstance(x, list):
@@ -178,6 +185,17 @@ def print_program(prog) -> Printed:
                 w_atom(it[2], nid)
                 w(")")
 
+        def w_loop_args(n, nid):
+            la = la_of(n)
+            for name_ in la["order"]:
+                if name_ == "reversed":
+                    w(" reversed")
+                elif la[name_] == "continue":
+                    w(" offset: continue")
+                else:
+                    w(f" {name_}: ")
+                    w_atom(la[name_], nid)
+
         def w_open(tag, nid=None):
             if not liq[0]:
                 w("{% ")
@@ -229,6 +247,7 @@ def print_program(prog) -> Printed:
                 w_open("for", nid)
                 w(f" {n[1]} in ")
                 w_iter(n[2], nid)
+                w_loop_args(n, nid)
                 w_close()
                 w_nodes(n[3], idx)
                 if n[4]:
@@ -239,6 +258,7 @@ def print_program(prog) -> Printed:
                 w_open("tablerow", nid)
                 w(f" {n[1]} in ")
                 w_iter(n[2], nid)
+                w_loop_args(n, nid)
                 w_close()
                 w_nodes(n[3], idx)
                 w_word("endtablerow")
@@ -381,13 +401,9 @@ def g_value(v):
     raise TypeError(v)
 
 
-def g_fseg(s):
-    return f"FIdx {g_Z(s)}" if isinstance(s, int) else f"FKey {g_str(s)}"
-
-
 def g_seg(s):
-    if isinstance(s, (tuple, list)):
-        return f"SSub (Build_fpath {g_str(s[1])} {g_list(g_fseg(x) for x in s[2])})"
+    if isinstance(s, (tuple, list)):    # a nested path, to any depth
+        return f"SSub (Path {g_str(s[1])} {g_segs(s[2])})"
     return f"SIdx {g_Z(s)}" if isinstance(s, int) else f"SKey {g_str(s)}"
 
 
@@ -402,7 +418,7 @@ def g_segs(segs):
 
 
 def g_path(p):
-    return f"{{| p_root := {g_str(p[0])}; p_segs := {g_segs(p[1])} |}}"
+    return f"(Path {g_str(p[0])} {g_segs(p[1])})"
 
 
 def g_atom(a):
@@ -420,6 +436,16 @@ def g_cond(c):
     if c[0] == "eq":
         return f"CEq ({g_atom(c[1])}) ({g_atom(c[2])})"
     return f"{'CAnd' if c[0] == 'and' else 'COr'} ({g_cond(c[1])}) ({g_cond(c[2])})"
+
+
+def g_la(n):
+    la = la_of(n)
+    if not la["order"]:
+        return "la_none"
+    opt = lambda a: "None" if a is None else f"(Some ({g_atom(a)}))"  # noqa: E731
+    off = la["offset"]
+    goff = "None" if off is None else ("(Some OffContinue)" if off == "continue" else f"(Some (OffAtom ({g_atom(off)})))")
+    return f"(Build_loop_args {opt(la['limit'])} {goff} {g_bool(la['reversed'])} {opt(la['cols'])})"
 
 
 def g_kws(kws):
@@ -443,9 +469,9 @@ def g_node(n):
     if k == "echo":
         return f"NEcho {g_expr(n[1])}"
     if k == "for":
-        return f"NFor {g_str(n[1])} {g_iter(n[2])} {g_nodes(n[3])} {g_nodes(n[4])}"
+        return f"NFor {g_str(n[1])} {g_iter(n[2])} {g_la(n)} {g_nodes(n[3])} {g_nodes(n[4])}"
     if k == "tablerow":
-        return f"NTablerow {g_str(n[1])} {g_iter(n[2])} {g_nodes(n[3])}"
+        return f"NTablerow {g_str(n[1])} {g_iter(n[2])} {g_la(n)} {g_nodes(n[3])}"
     if k == "if":
         alts = g_list(f"({g_cond(c)}, {g_nodes(b)})" for c, b in n[4])
         return f"NIf {g_bool(n[1])} ({g_cond(n[2])}) {g_nodes(n[3])} {alts} {g_nodes(n[5])}"
@@ -578,7 +604,14 @@ class Tracer:
             if nid is None:
                 return False
             name = self.printed.nodes[nid][1]
-            self.frames.append(("call", nid, self.macros.get((id(context), name), ())))
+            # a macro body may call the macros defined before the call in the calling context (its parents)
+            chain, ctx = (), context
+            while ctx is not None:
+                if (id(ctx), name) in self.macros:
+                    chain = self.macros[(id(ctx), name)]
+                    break
+                ctx = ctx.parent_context
+            self.frames.append(("call", nid, chain))
             return True
         return False
 
@@ -732,7 +765,7 @@ def observe_analysis(env, use_async):
         return ("err", classify_exc(e))
 
     def seg(x):
-        return ("sub", x[0], list(x[1:])) if isinstance(x, list) else x
+        return ("sub", x[0], [seg(y) for y in x[1:]]) if isinstance(x, list) else x
 
     def grouped(d):
         return [(root, [[seg(x) for x in v.segments[1:]] for v in vs]) for root, vs in d.items()]
@@ -883,9 +916,22 @@ class Gen:
                 elif k < 0.8:
                     segs.append(r.choice([0, 1]))
                 else:   # a nested path: its value is the key
-                    sub = [r.choice(KEYS + [0])] if r.random() < 0.4 else []
-                    segs.append(("sub", r.choice(GEN + ["obj"]), sub))
+                    segs.append(self.subpath(0))
         return (root, segs)
+
+    def subpath(self, depth):
+        """A path used as a segment; it may itself use a path as a segment (a[b[c.k]]), to depth 3."""
+        r = self.rng
+        sub = []
+        while r.random() < 0.45 and len(sub) < 2:
+            k = r.random()
+            if k < 0.4:
+                sub.append(r.choice(KEYS))
+            elif k < 0.6 or depth >= 2:
+                sub.append(0)
+            else:
+                sub.append(self.subpath(depth + 1))
+        return ("sub", r.choice(GEN + ["obj"]), sub)
 
     def lit(self):
         r = self.rng
@@ -923,6 +969,28 @@ class Gen:
             hi = ("lit", r.choice([0, 1, 2, 3])) if r.random() < 0.6 else ("var", self.path(False))
             return ("range", lo, hi)
         return ("path", r.choice([("xs", []), ("obj", []), ("obj", ["l"]), self.path(False)]))
+
+    def loop_args(self, tablerow):
+        """limit / offset / reversed / cols in a random source order; values are small integer literals or paths (a path that
+        does not hold an integer fails the render with a type error, which the model follows)."""
+        r = self.rng
+        if r.random() < 0.55:
+            return None
+        val = lambda: ("lit", r.choice([0, 1, 2])) if r.random() < 0.55 else ("var", self.path(False))  # noqa: E731
+        la = {"limit": None, "offset": None, "reversed": False, "cols": None, "order": []}
+        names = ["limit", "offset", "reversed"] + (["cols"] if tablerow else [])
+        r.shuffle(names)
+        for nm in names:
+            if r.random() < 0.5:
+                continue
+            la["order"].append(nm)
+            if nm == "reversed":
+                la["reversed"] = True
+            elif nm == "offset" and r.random() < 0.3:
+                la["offset"] = "continue"
+            else:
+                la[nm] = val()
+        return la if la["order"] else None
 
     def kws(self, names, lo=0, hi=2):
         r = self.rng
@@ -976,9 +1044,9 @@ class Gen:
             return ("capture", r.choice(SINK), sub(1, 2))
         if k == "for":
             els = sub(1, 2) if r.random() < 0.25 else []
-            return ("for", r.choice(GEN), self.iter_src(), sub(1, 3), els)
+            return ("for", r.choice(GEN), self.iter_src(), sub(1, 3), els, self.loop_args(False))
         if k == "tablerow":
-            return ("tablerow", r.choice(GEN), self.iter_src(), sub(1, 2))
+            return ("tablerow", r.choice(GEN), self.iter_src(), sub(1, 2), self.loop_args(True))
         if k == "if":
             alts = [(self.cond(), sub(1, 2)) for _ in range(r.choice([0, 0, 1, 2]))]
             els = sub(1, 2) if r.random() < 0.4 else []
@@ -1178,6 +1246,24 @@ SEEDS = [
       "p1": [("text", "[p1]"), OUT("x"), ("out", (("var", ("obj", [("sub", "x", []), 0])), []))]},
      [{"a": {"kk": 1}, "b": {"k": "kk"}, "x": "l", "xs": ["k", "l"], "obj": {"k": [7], "l": [8]}, "d": "D", "g": "G", "e": 1, "f": 2},
       {"x": "k"}]),
+    # loop arguments: every argument is reported whichever of the others are present and in whatever order they are written;
+    # offset: continue resumes where the last loop over the same variable and iterable stopped; an unconvertible limit fails the render
+    ({ROOT: [("tablerow", "i", ("path", ("xs", [])), [OUT("i")],
+              {"limit": V("lim"), "offset": V("off"), "reversed": True, "cols": V("c"), "order": ["cols", "reversed", "offset", "limit"]}),
+             ("for", "i", ("path", ("xs", [])), [OUT("i")], [OUT("e")],
+              {"limit": None, "offset": "continue", "reversed": False, "cols": None, "order": ["offset"]}),
+             ("for", "i", ("path", ("xs", [])), [OUT("i")], [],
+              {"limit": None, "offset": V("o", "skip"), "reversed": False, "cols": None, "order": ["offset"]}),
+             ("for", "j", ("range", ("lit", 1), V("hi")), [OUT("j")], [],
+              {"limit": V("lim"), "offset": None, "reversed": True, "cols": None, "order": ["reversed", "limit"]})]},
+     [{"xs": [1, 2, 3], "lim": 1, "off": 1, "c": 2, "o": {"skip": 2}, "hi": 3}, {"xs": [1, 2, 3], "lim": "s1", "off": 1},
+      {"xs": [1, 2], "off": [1]}, {"xs": [1, 2, 3], "lim": True, "hi": 2}, {}]),
+    # paths nested to depth 3: a[b[c[d.k]]] -- each level is reported and read on its own, innermost first
+    ({ROOT: [("out", (("var", ("a", [("sub", "b", [("sub", "c", [("sub", "d", ["k"]), 0])]), "k"])), [])),
+             ("for", "x", ("path", ("xs", [("sub", "b", [("sub", "y", [])])])), [OUT("x")], [],
+              {"limit": ("var", ("obj", [("sub", "d", ["k"])])), "offset": None, "reversed": False, "cols": None, "order": ["limit"]})]},
+     [{"a": {"s1": {"k": 1}}, "b": {"q": "s1"}, "c": {"l": ["q"]}, "d": {"k": "l"}, "xs": {"s1": [1, 2]}, "y": "q", "obj": {"l": 1}},
+      {"d": {"k": "l"}}, {}]),
 ]
 
 
@@ -1220,7 +1306,7 @@ def judge(prog, printed, ana, events, recursive):
         return bad
     v, g, _l, f, t = ana[1]
     def norm(segs):
-        return tuple(("sub", x[1], tuple(x[2])) if isinstance(x, (tuple, list)) else x for x in segs)
+        return tuple(("sub", x[1], norm(x[2])) if isinstance(x, (tuple, list)) else x for x in segs)
 
     vset = {(root, norm(s)) for root, sl in v for s in sl}
     gset = {root for root, _ in g}
@@ -1261,16 +1347,16 @@ def run_case(prog, datas):
 def run(ck: Check) -> None:
     ck.rule = (
         "programs = a root template and 1..3 partials over: output/echo with filters (path arguments), assign, capture, "
-        "increment/decrement (read back through the counters), for/else and tablerow over paths and ranges (a..b), if/unless with "
+        "increment/decrement (read back through the counters), for/else and tablerow over paths and ranges (a..b) with limit / offset (also continue) / reversed / cols in any source order, if/unless with "
         "elsif/else (and/or/==), case/when/else (several values per when), cycle (with group), liquid tag bodies (line syntax, nested "
         "blocks), with, macro (defaults)/call (positional, keyword), include (with .. as, arguments), render (with/for .. as, "
-        "arguments); paths with keys, indexes and one level of nested paths (a[b.c]), forloop/parentloop/tablerowloop reads; names "
+        "arguments); paths with keys, indexes and paths nested to depth 3 (a[b[c.d]]), forloop/parentloop/tablerowloop reads; names "
         "drawn from a small pool so that render arguments, locals, loop variables, parameters, counters and partial arguments shadow "
         "each other; partials are included and rendered several times from different scopes. Seventeen seeds (witnesses of the repaired "
         "defects, their neighbours, one program per added construct) run first; then seeded random programs: 6/8 'tame' (acyclic, "
         "include only where it can run), 1/8 'norules' (acyclic, include also under render and in macro bodies), 1/8 'recursive'. "
         "Twelve raw-source programs (inline snippets; for / tablerow with limit, offset, cols, reversed in every combination -- outside the model) are judged by the oracle only. Each program is analysed "
-        "(analyze and analyze_async) and rendered with 3-5 data sets (render and render_async) under the trace wrappers; quick 80 "
+        "(analyze and analyze_async) and rendered with 3-5 data sets (render and render_async) under the trace wrappers; quick 60 "
         "programs, thorough 1500. distinct = distinct program text; non-trivial = at least two include/render tags."
     )
     ck.exhaustive = False
@@ -1285,8 +1371,8 @@ def run(ck: Check) -> None:
         "modelled not verified: dict insertion order, frozenset equality, absence of collisions of hash((name, *argument names))",
     ]
     ck.assumptions = [
-        "mini language of StaticAnalysis.v: no paths nested deeper than one level, no for/tablerow limit/offset/cols/reversed, "
-        "break/continue, ifchanged; inline snippets are outside the model (oracle only); filter values, captures and the "
+        "mini language of StaticAnalysis.v: no break/continue, ifchanged; loop argument values are small integers or paths (a value int() rejects fails the "
+        "render with a type error, which the model follows); inline snippets are outside the model (oracle only); filter values, captures and the "
         "forloop/tablerowloop objects are opaque (the generator keeps them out of conditions, loops, ranges, case subjects and "
         "with/for bindings); when values are literals; path keys other than size/first/last; template names without dots; strict "
         "mode, default limits",
@@ -1298,7 +1384,7 @@ def run(ck: Check) -> None:
     ck.proof()
 
     rng = ck.rng
-    nrand = 80 if ck.quick else 1500
+    nrand = 60 if ck.quick else 1500
     programs = [(tup(p), [dict(d) for d in ds], "seed") for p, ds in SEEDS]
     for i in range(nrand):
         wild = "recursive" if i % 8 == 7 else ("norules" if i % 8 == 3 else "")
@@ -1339,7 +1425,7 @@ def run(ck: Check) -> None:
                                       "analysis": ana})
             # the model's trace is compared where the model covers the run: no error other than the disabled include tag,
             # every read attributed to a reference of the generated program, no recursion
-            ok_err = err_s in (None, "EDisabledTag")
+            ok_err = err_s in (None, "EDisabledTag", "EType")
             attributed = all(e[0] != "read" or e[4] is not None for e in ev_s)
             if ev_s != ev_a or err_s != err_a:
                 ck.count("render.sync-async-trace-differs")   # C01's subject; not judged here
